@@ -16,7 +16,10 @@ B = [
   "    return nx.relabel_nodes(m_refined, canonical_labels, copy=True)\n",
   "    m_canonical = nx.relabel_nodes(m_refined, canonical_labels, copy=True)\n    nx.set_node_attributes(m_canonical, {v: k for k, v in canonical_labels.items()}, \"original_label\")\n    return m_canonical\n"),
  ("b06_refinement_yields_every_step", "tucan/canonicalization.py",
-  "        m = m_refined\n", "        yield m_refined\n        m = m_refined\n"),
+  [("        m = m_refined\n", "        yield m_refined\n        m = m_refined\n"),
+   # the consumer keeps only the last step (keeping them all would be the quadratic-memory regression of seed C15f, which C15 reports)
+   ("    m_refined = list(refine_partitions(m_partitioned_by_invariant_code))[-1]\n",
+    "    for m_refined in refine_partitions(m_partitioned_by_invariant_code):\n        pass\n")], None),
  ("b07_writer_property_order", "tucan/io/molfile_writer.py",
   "0{charge}{radical}{atomic_mass}\"", "0{atomic_mass}{radical}{charge}\""),
  ("b08_permute_local_rng", "tucan/graph_utils.py", None, None),
@@ -77,9 +80,12 @@ def main():
         try:
             f = os.path.join(wt, path)
             s = open(f).read()
-            if s.count(old) != 1:
-                print("SKIP", name, s.count(old)); continue
-            open(f, "w").write(s.replace(old, new))
+            pairs = old if isinstance(old, list) else [(old, new)]
+            if any(s.count(o) != 1 for o, _ in pairs):
+                print("SKIP", name, [s.count(o) for o, _ in pairs]); continue
+            for o, nw in pairs:
+                s = s.replace(o, nw)
+            open(f, "w").write(s)
             diff = subprocess.run(["git", "-C", wt, "diff"], capture_output=True, text=True).stdout
             open(os.path.join(out, name + ".diff"), "w").write(diff)
             index.append({"name": name, "expected": []})
